@@ -83,6 +83,17 @@ Definition execute_with_retries (t0 : Z) : rstate * rfinal :=
   | AFail => retry_loop retry_fuel retry_loop_init s1
   end.
 
+(* the same function with the recursion fuel chosen by the caller: RetryProofs.ewr_fuel_eq shows that whenever
+   it does not run out of fuel it IS execute_with_retries.  Used to evaluate the model for MaxRetries at the
+   ends of the int range (retry_fuel is a unary number of the size of MaxRetries). *)
+Definition execute_with_retries_fuel (fuel : nat) (t0 : Z) : rstate * rfinal :=
+  let '(s1, o) := attempt (mkr t0 O O []) in
+  match o with
+  | APanic => (s1, on_panic)
+  | AOk => if retry_first_attempt_returns_on_success then (s1, RReturned false) else retry_loop fuel retry_loop_init s1
+  | AFail => retry_loop fuel retry_loop_init s1
+  end.
+
 End Retry.
 
 (* specification side *)
